@@ -25,6 +25,7 @@ var callID = map[string]int{
 	"mergeAndWriteVectorIndexes": 28, "visitStoredFields": 29, "Write": 30,
 	"Lock": 31, "Unlock": 32, "closeActual": 33, "AddRef": 34, "DecRef": 35, "mergeSegmentBases": 36, "VisitStoredFields": 37,
 	"load": 38, "insertLOCKED": 39, "RLock": 40, "RUnlock": 41, "createAndCacheLOCKED": 42,
+	// 43 is a pseudo call emitted in front of `return ..., seg.ErrClosed`
 }
 
 type skTarget struct {
@@ -39,6 +40,7 @@ var skTargets = []string{
 	"vectorIndexOpaque.mergeAndWriteVectorIndexes", "vectorIndexOpaque.writeVectorIndexes",
 	"Segment.AddRef", "Segment.DecRef", "Segment.Close", "ZapPlugin.Merge", "mergeStoredAndRemap",
 	"vectorIndexCache.loadFromCache", "vectorIndexCache.createAndCacheLOCKED",
+	"mergeToWriter", "mergeAndPersistInvertedSection", "mergeAndPersistSynonymSection",
 }
 
 func calleeName(x ast.Expr) string {
@@ -134,8 +136,25 @@ func (c *skCtx) stmt(s ast.Stmt) []string {
 		if v.Init != nil {
 			out = append(out, c.stmt(v.Init)...)
 		}
-		out = append(out, callsIn(v.Cond)...)
+		condCalls := callsIn(v.Cond)
+		purePoll := false
+		if ce, ok := v.Cond.(*ast.CallExpr); ok && calleeName(ce.Fun) == "isClosed" {
+			purePoll = true
+		}
+		if !purePoll {
+			// a poll of the close channel buried in a larger condition is a different event (44)
+			for i, cc := range condCalls {
+				if cc == "KCall 21" {
+					condCalls[i] = "KCall 44"
+				}
+			}
+		}
+		out = append(out, condCalls...)
 		thenB := c.block(v.Body.List)
+		if purePoll && returnsErrClosed(v.Body) {
+			// marker 43: this branch ends in `return ..., seg.ErrClosed`
+			thenB = strings.Replace(thenB, "KSeq [", "KSeq [KCall 43; ", 1)
+		}
 		elseB := "KSeq []"
 		if v.Else != nil {
 			switch e := v.Else.(type) {
@@ -181,6 +200,7 @@ func (c *skCtx) stmt(s ast.Stmt) []string {
 		iserr := false
 		if c.retErr && len(v.Results) > 0 {
 			last := v.Results[len(v.Results)-1]
+
 			if id, ok := last.(*ast.Ident); !(ok && id.Name == "nil") {
 				iserr = true
 			}
@@ -192,6 +212,19 @@ func (c *skCtx) stmt(s ast.Stmt) []string {
 		return append(out, fmt.Sprintf("KRet %v", iserr))
 	}
 	return nil
+}
+
+// returnsErrClosed: the block's last statement is `return ..., <pkg>.ErrClosed`
+func returnsErrClosed(b *ast.BlockStmt) bool {
+	if len(b.List) == 0 {
+		return false
+	}
+	rs, ok := b.List[len(b.List)-1].(*ast.ReturnStmt)
+	if !ok || len(rs.Results) == 0 {
+		return false
+	}
+	se, ok := rs.Results[len(rs.Results)-1].(*ast.SelectorExpr)
+	return ok && se.Sel.Name == "ErrClosed"
 }
 
 // endsInReturn: the block's last statement is a return
